@@ -77,6 +77,8 @@ def compare(ctx, sig, case, res, out, nmodes_out, tol=1e-9):
     if not rel and phys > 0 and abs(rl - logical) > tol and not (len(dist) == 0 and len(rd) == 0 and abs(rl) < tol):
         ctx.fail(sig + "-logical_perf", "logical performance differs from P(heralds and post-selection | filter)", case, logical, rl)
         return False
+    if not dist and logical <= 1e-12:
+        return True     # the selection keeps an event of probability zero: the renormalised distribution is undefined
     keys = set(k for k, v in dist.items() if v > 1e-12) | set(k for k, v in rd.items() if v > 1e-12)
     for k in keys:
         if abs(dist.get(k, 0.0) - rd.get(k, 0.0)) > tol:
